@@ -1122,6 +1122,26 @@ expand_manifests(string &expr, bool expand_undefined,
         }
       }
     }
+    else if (isdigit(expr[p]) ||
+             (expr[p] == '.' && p + 1 < expr.size() && isdigit(expr[p + 1]))) {
+      // A preprocessing number: digits, letters (0x1F, 1UL, 1e5), periods,
+      // digit separators and exponent signs all belong to it, so don't
+      // mistake its tail for an identifier or a character literal.
+      p++;
+      while (p < expr.size()) {
+        if (isalnum(expr[p]) || expr[p] == '_' || expr[p] == '.') {
+          if ((expr[p] == 'e' || expr[p] == 'E' || expr[p] == 'p' || expr[p] == 'P') &&
+              p + 1 < expr.size() && (expr[p + 1] == '+' || expr[p + 1] == '-')) {
+            p++;
+          }
+          p++;
+        } else if (expr[p] == '\'' && p + 1 < expr.size() && isalnum(expr[p + 1])) {
+          p++;
+        } else {
+          break;
+        }
+      }
+    }
     else if (expr[p] == '\'' || expr[p] == '"') {
       // Skip the next part until we find a closing quotation mark.
       char quote = expr[p];
